@@ -6,7 +6,7 @@
    settled index).  That Σ part payouts equals the integer part of stake x (odds - 1) for every split of the bet over
    the queue, and non-negativity of parts, are decided per run by the accounting monitors + kernel stream. *)
 From Coq Require Import ZArith Bool List.
-From Sge Require Import Lib.Dec Model.Types Model.Orderbook Model.Mint Model.Chain Proofs.WagerLoop Proofs.Inversion Proofs.Custody Proofs.Mono.
+From Sge Require Import Lib.Dec Model.Types Model.Orderbook Model.Mint Model.Chain Proofs.WagerLoop Proofs.Inversion Proofs.Custody Proofs.Mono Witness.D3w.
 Import ListNotations.
 Open Scope Z_scope.
 
@@ -58,3 +58,27 @@ Theorem C03_terms_fixed : forall bk supply P vault MP t0 sw sd,
   exists x' b', get_ms (run (init bk supply P vault MP t0 sw sd) (ops1 ++ ops2)) m = Some x' /\ In b' (ms_bets x') /\ bet_core b' = bet_core b.
 Proof. exact bet_terms_are_fixed. Qed.
 Print Assumptions C03_terms_fixed.
+
+(* ---- the clauses "no backing part is negative" and "the stake never exceeds the requested stake" are FALSE of the
+   faithful model (known finding D3: bet_amount_int, transcribing CalculateBetAmountInt, feeds its own carry back
+   twice).  Both witnesses are replayed on the real app on every run (corpus/C03/d3_*.txt). *)
+Definition has_negative_part (s : chain) : bool :=
+  existsb (fun e => existsb (fun b => existsb (fun f => f_stake f <? 0) (b_parts b)) (ms_bets (snd e))) (c_ms s).
+Theorem C03_nonneg_refuted : exists s0 ops,
+  forallb valid_opb ops = true /\ c_halted (run s0 ops) = false /\ has_negative_part (run s0 ops) = true.
+Proof. exists d3neg_init, d3neg_ops. vm_compute. repeat split; reflexivity. Qed.
+Print Assumptions C03_nonneg_refuted.
+
+(* a wager of 3 with fee 1 (requested stake 2) at odds 3.0 against liquidity 1, 1, 2 is charged a stake of 3 *)
+Definition stake_above_requested (s : chain) (uid requested : Z) : bool :=
+  existsb (fun e => existsb (fun b => (b_uid b =? uid) && (requested - b_fee b <? b_amount b)) (ms_bets (snd e))) (c_ms s).
+Theorem C03_requested_refuted : exists s0 ops,
+  forallb valid_opb ops = true /\ c_halted (run s0 ops) = false /\
+  In (OWager 2 {| tk_signer := 0; tk_exp := 1700009999 |} 50 3 7 0 3000000000000000000 1000000000000000000
+        [(0, 1000000000000000000); (1, 1000000000000000000)] {| ky_ignore := true; ky_approved := false; ky_id := -1 |} 1) ops /\
+  stake_above_requested (run s0 ops) 50 3 = true.
+Proof.
+  exists d3over_init, d3over_ops. split; [vm_compute; reflexivity|]. split; [vm_compute; reflexivity|].
+  split; [|vm_compute; reflexivity]. unfold d3over_ops. simpl. tauto.
+Qed.
+Print Assumptions C03_requested_refuted.
